@@ -14,7 +14,11 @@ ops
   reload <r> <0|1>                               -> dump r        (config reload: relay.am_relay)
   remote <a> <b>                                 -> dump a        (a's tunnel to b loses its underlay address)
   fwd <s> <r> <idx>                              -> `fwd <node> <outIdx>` | none   (s sends r a relay packet on relay index idx)
-dump: `a:<amRelay> {h:<id>:<remoteId>:<remoteValid>:<addr,…>:<mapsAgree> {r:<idx>:<type>:<state>:<remoteIdx>:<peer>}} {m:<idx>:<hostId>}`
+  start <a> <t> <r>[,<r>…]                       -> `<dump a> | <outs>`   (a's handshake attempt towards t runs StartRelays with these relays)
+  migrate <a> <b>                                -> `<dump a> | <outs>` | no-old-tunnel | skipped-multi
+                                                    (a's connection manager migrates the used relays of its second-newest hostinfo for b to the primary)
+outs: `s:<node>` control message queued for node, `hs:<addr>` handshake started, `v:<node>:<idx>` handshake sent through a relay
+dump (+ `u:<idx>` per connectionManager.relayUsed entry): `a:<amRelay> {h:<id>:<remoteId>:<remoteValid>:<addr,…>:<mapsAgree> {r:<idx>:<type>:<state>:<remoteIdx>:<peer>}} {m:<idx>:<hostId>}`
 -/
 import Nebula.Driver.Common
 import Nebula.Driver.NetArgs
@@ -64,7 +68,8 @@ def showHost (h : Host) : String :=
 
 def dump (n : Node) : String :=
   " ".intercalate ([s!"a:{boolStr n.amRelay}"] ++ (sortBy (·.id) n.hosts).map showHost ++
-    (sortBy (·.1) n.relays).map (fun p => s!"m:{p.1}:{p.2}"))
+    (sortBy (·.1) n.relays).map (fun p => s!"m:{p.1}:{p.2}") ++
+    (sortBy id n.relayUsed).map (fun i => s!"u:{i}"))
 
 -- ---- parsing a dump back (for the property oracle applied to the implementation's answer)
 
@@ -87,6 +92,7 @@ def parseDumpAux (myAddrs : List Addr) : List String → Node → Option Node
         let r : Relay := { type := ty, state := st, localIndex := idx, remoteIndex := ri, peerAddr := natOfAddr peer }
         parseDumpAux myAddrs rest { n with hosts := { h with recs := h.recs ++ [r] } :: hs }
       | _, _, _, _, _, _ => none
+    | ["u", _] => parseDumpAux myAddrs rest n
     | ["m", idx, hid] =>
       match idx.toNat?, hid.toNat? with
       | some idx, some hid => parseDumpAux myAddrs rest { n with relays := (idx, hid) :: n.relays }
@@ -125,20 +131,33 @@ def stateVerdict (before : Node) (toks : List String) (deleted : Option Nat) : S
 def getNode (cl : Cl) (i : Nat) : Option Node := cl.nodes[i]?
 def setNode (cl : Cl) (i : Nat) (n : Node) : Cl := { cl with nodes := cl.nodes.set i n }
 
-/-- route what a handler emitted at node `i`; returns the new cluster and the `outs` tokens. -/
+def addUsed (n : Node) (i : Nat) : Node := if n.relayUsed.contains i then n else { n with relayUsed := n.relayUsed ++ [i] }
+
+/-- route what a handler emitted at node `i`; returns the new cluster and the `outs` tokens (queued control
+messages in order, then newly pending handshakes by address, then handshakes sent through a relay). -/
 def route (cl : Cl) (i : Nat) (pendingBefore : List Addr) (outs : List Relay.Out) : Cl × List String :=
-  outs.foldl (fun (acc : Cl × List String) o =>
+  let r := outs.foldl (fun (acc : Cl × List String × List Addr × List String) o =>
     match o with
     | .send hid m =>
       match (getNode acc.1 i).bind (·.findHost hid) with
       | some h =>
         if h.remoteValid then
           match addrNode (h.vpnAddrs.headD 0) with
-          | some d => ({ acc.1 with outbox := acc.1.outbox ++ [{ dest := d, hostId := h.remoteId, msg := m }] }, acc.2 ++ [s!"s:{d}"])
+          | some d => ({ acc.1 with outbox := acc.1.outbox ++ [{ dest := d, hostId := h.remoteId, msg := m }] }, acc.2.1 ++ [s!"s:{d}"], acc.2.2)
           | none => acc
         else acc
       | none => acc
-    | .handshake a => if pendingBefore.contains a then acc else (acc.1, acc.2 ++ [s!"hs:{showA a}"])) (cl, [])
+    | .handshake a =>
+      -- f.Handshake(a) → GetOrHandshake: a pending handshake is started only when no tunnel to `a` exists
+      if pendingBefore.contains a || acc.2.2.1.contains a || ((getNode acc.1 i).bind (·.queryVpnAddr a)).isSome then acc
+      else (acc.1, acc.2.1, acc.2.2.1 ++ [a], acc.2.2.2)
+    | .via hid outIdx =>
+      match (getNode acc.1 i).bind (·.findHost hid) with
+      | some h =>
+        let d : String := if !h.remoteValid then "-1" else match addrNode (h.vpnAddrs.headD 0) with | some d => toString d | none => "-1"
+        (acc.1, acc.2.1, acc.2.2.1, acc.2.2.2 ++ [s!"v:{d}:{outIdx}"])
+      | none => acc) (cl, [], [], [])
+  (r.1, r.2.1 ++ (sortBy id r.2.2.1).map (fun a => s!"hs:{showA a}") ++ r.2.2.2)
 
 /-- deliver a control message to hostinfo `hid` of node `i`. -/
 def deliverTo (cl : Cl) (i hid : Nat) (m : Ctl) : Cl × String × Option Node :=
@@ -275,6 +294,50 @@ def step (cl : Cl) (args : List String) (impl : String) : Cl × Driver.Out :=
           (setNode cl a na', { model := dump na', verdict := stateVerdict na (dumpTokens impl) none, tag := "remote" })
       | none => (cl, badOp)
     | _, _ => (cl, badOp)
+  | ["start", a, t, rl] =>
+    match a.toNat?, t.toNat? with
+    | some a, some t =>
+      match getNode cl a with
+      | some na =>
+        let relays := ((rl.splitOn ",").filterMap (fun x => x.toNat?.map nodeAddr)).eraseDups
+        let (na', c', outs) := startRelays na cl.c (nodeAddr t) false relays
+        let cl1 := { setNode cl a na' with c := c' }
+        let (cl2, toks) := route cl1 a na.pending outs
+        let tag :=
+          if !(na.useRelaysCfg && !na.amRelay) then "start:relays-disabled"
+          else match relays.head?.bind (fun r => (na.queryVpnAddr r).bind (fun rh => if rh.remoteValid then some (rh.byAddr (nodeAddr t)) else none)) with
+            | none => "start:no-relay-tunnel"
+            | some none => "start:new-request"
+            | some (some ex) => s!"start:existing-{ex.state}"
+        (cl2, { model := dump na' ++ " |" ++ String.join (toks.map (" " ++ ·)),
+                verdict := stateVerdict na (dumpTokens impl) none, tag := tag })
+      | none => (cl, badOp)
+    | _, _ => (cl, badOp)
+  | ["migrate", a, b] =>
+    match a.toNat?, b.toNat? with
+    | some a, some b =>
+      match getNode cl a with
+      | some na =>
+        match na.hostsFor (nodeAddr b) with
+        | nw :: old :: _ =>
+          -- records migrateRelayUsed would act on (Go iterates a map: more than one ⇒ unspecified order)
+          let acting := old.recs.filter (fun r =>
+            !(r.type == nebula_ForwardingType && !na.amRelay) &&
+            (match nw.byAddr r.peerAddr with
+              | some ex => ex.state == nebula_Requested
+              | none => na.relayUsed.contains r.localIndex))
+          if acting.length > 1 then (cl, { model := "skipped-multi", tag := "triv:migrate-multi" }) else
+          let (na', c', outs) := migrateRelayUsed na cl.c old.id nw.id false
+          let cl1 := { setNode cl a na' with c := c' }
+          let (cl2, toks) := route cl1 a na.pending outs
+          let tag := if acting.isEmpty then
+              (if old.recs.any (fun r => r.type == nebula_ForwardingType && !na.amRelay) then "migrate:forwarding-skipped-not-relay" else "migrate:nothing")
+            else s!"migrate:type-{(acting.headD default).type}"
+          (cl2, { model := dump na' ++ " |" ++ String.join (toks.map (" " ++ ·)),
+                  verdict := stateVerdict na (dumpTokens impl) none, tag := tag })
+        | _ => (cl, { model := "no-old-tunnel", tag := "triv:migrate-no-old" })
+      | none => (cl, badOp)
+    | _, _ => (cl, badOp)
   | ["fwd", s, r, idx] =>
     match s.toNat?, r.toNat?, idx.toNat? with
     | some s, some r, some idx =>
@@ -287,9 +350,19 @@ def step (cl : Cl) (args : List String) (impl : String) : Cl × Driver.Out :=
           -- the AEAD oracle, by construction: the packet verifies only under the key of the tunnel it
           -- was sealed on, i.e. when hm.Relays[idx] is the receiving end of the sending tunnel
           let authentic := nr.relayOwner idx == some hs.remoteId && (nr.findHost hs.remoteId).isSome
-          let nr := if authentic then nr.modHost hs.remoteId (fun h => { h with remoteValid := true }) else nr
-          let cl := if authentic then setNode cl r nr else cl
+          let nr := if authentic then addUsed (nr.modHost hs.remoteId (fun h => { h with remoteValid := true })) idx else nr
           let res := if authentic then relayPacket nr idx else Fwd.drop "unauthenticated"
+          -- prepareSendVia marks the onward relay record as used
+          let nr := match res with
+            | .forward tid outIdx =>
+              match (nr.findHost tid).bind (fun t => t.recs.find? (fun tr => tr.remoteIndex == outIdx && tr.state == nebula_Established && hs.remoteId != 0 &&
+                  ((nr.findHost hs.remoteId).map (fun sh => sh.vpnAddrs.contains tr.peerAddr)).getD false)) with
+              | some tr => addUsed nr tr.localIndex
+              | none => nr
+            | _ => nr
+          -- the sender's SendVia (hook SendViaRaw, relay object without a local index) marks index 0 as used
+          let cl := setNode cl s (addUsed ns 0)
+          let cl := if authentic then setNode cl r nr else cl
           let (model, tag) := match res with
             | .forward tid outIdx =>
               match nr.findHost tid with
